@@ -207,7 +207,7 @@ func c08Gen(ts []c08Target) func(yield func(c08.Case) bool) {
 	}
 }
 
-const c08Bound = "per codec: every frame of the alphabet x {every truncation; every length field x {0,1,2,3,true-1,true+1,2^16-1,2^31-1,2^31,2^32-1} (clamped to the field width); every byte x {0x00,0xFF,^b} (thorough: x all 256 values); every block +1..3 bytes of {00,01,FF} and -1..3 bytes with lengths adjusted; 1..3 trailing bytes}; all byte strings of length <=2; all 3-byte strings starting with the protocol magic; every path-selecting byte (bolt: protocol code, command type, command code, codec, v2 switch; dubbo: flag, status; dubbo-thrift: version, strict-version bytes, message type; tars: the head byte of every length-carrying TLV, SIMPLE_LIST element type, head of every size INT) x all 256 values, and x {0..7, single bits, single cleared bits, 0xFF, single-bit flips of the true value, true+-1} x every length field (tars: the TLV's own length and the packet length) x the length boundary set; constructed grids: bolt/boltv2 {cmdType 0..3} x {cmdCode 0..2} x classLen {0,1,2} x headerLen {0,1,3,4,5,8,9,10} x contentLen {0,1,2} x 2 header fills x {complete, -1 byte, +1 byte}; dubbo {all 256 flag bytes} x status {0,20,255} x 7 payloads (request payload cut to 0,1,2,3,len-1,len bytes; null), each for the 3 listener configurations; every 4-byte element count (tars map sizes and vector lengths, the hessian list length) x {2^24, 2^22, 2^20}; bolt/boltv2 header-block grid: every sequence of <= 4 length-prefixed strings whose announced length is one of {0xFFFFFFFF, 0, 1, 2, exactly the remaining bytes, remaining+1, 0x7FFFFFFF, 0x80000000} (the relative and absurd ones with 0 or 1 own bytes) x {no, one} dangling byte x {request, one-way, response} x header length field {right, -1, +1}"
+const c08Bound = "per codec: every frame of the alphabet x {every truncation; every length field x {0,1,2,3,true-1,true+1,2^16-1,2^31-1,2^31,2^32-1} (clamped to the field width); every byte x {0x00,0xFF,^b} (thorough: x all 256 values); every block +1..3 bytes of {00,01,FF} and -1..3 bytes with lengths adjusted; 1..3 trailing bytes}; all byte strings of length <=2; all 3-byte strings starting with the protocol magic; every path-selecting byte (bolt: protocol code, command type, command code, codec, v2 switch; dubbo: flag, status; dubbo-thrift: version, strict-version bytes, message type; tars: the head byte of every length-carrying TLV, SIMPLE_LIST element type, head of every size INT) x all 256 values, and x {0..7, single bits, single cleared bits, 0xFF, single-bit flips of the true value, true+-1} x every length field (tars: the TLV's own length and the packet length) x the length boundary set; constructed grids: bolt/boltv2 {cmdType 0..3} x {cmdCode 0..2} x classLen {0,1,2} x headerLen {0,1,3,4,5,8,9,10} x contentLen {0,1,2} x 2 header fills x {complete, -1 byte, +1 byte}; dubbo {all 256 flag bytes} x status {0,20,255} x 7 payloads (request payload cut to 0,1,2,3,len-1,len bytes; null), each for the 3 listener configurations; every 4-byte element count (tars map sizes and vector lengths, the hessian list length) x {2^24, 2^22, 2^20}; bolt/boltv2 header-block grid: every sequence of <= 4 length-prefixed strings whose announced length is one of {0xFFFFFFFF, 0, 1, 2, exactly the remaining bytes, remaining+1, 0x7FFFFFFF, 0x80000000} (the relative and absurd ones with 0 or 1 own bytes) x {no, one} dangling byte x {request, one-way, response} x header length field {right, -1, +1}; dubbo attachment grid: 'H' + every sequence of <= 3 hessian2 strings with announced length {0,1,2,remaining,remaining+1,31,2-byte form,'S' 65535} + {'Z', nothing}; tars map grid: {request, response} x 10 encodings of each of the two map fields x {ascending, swapped, first repeated}"
 const c08Rule = "each input is decoded three times through XProtocol.Decode + ProtocolMatch (exact-capacity buffer, 4096 spare bytes of 0xA5, of 0x3C); distinct = distinct input bytes per target; outcome = (target, class, frame|more|error|panic). Oracle: no panic escapes (a panic the codec recovers and returns as an error is allowed); outcomes with different poison identical; TotalAlloc delta of a call <= 1MiB+32*len(input) (confirmed by the minimum of 3 re-measurements); the call returns (60s; or >300ms with >128MiB in use and growing). What a decoder returns for a corrupted frame (frame vs error vs more) is NOT compared. Cost: the minimum thread CPU time (CLOCK_THREAD_CPUTIME_ID of the locked OS thread) over the three executions of an input <= 1 KiB must not exceed 100 ms (replay: 50 ms). tars inputs announcing a map size > 2^24 in a 4-byte INT are not executed (kind not-run; findings/C08.md F5); sizes up to 2^24 are. Header-block grid only: a bolt/boltv2 frame accepted without error must carry exactly the key/value pairs (in order) an independent reference parse of its header block yields, and a block that parse rejects must not be accepted."
 
 func c08Run(t *testing.T, part string, ts []c08Target) {
@@ -239,13 +239,17 @@ func TestVerifC08BoltV2(t *testing.T) {
 		}}})
 }
 
+func c08DubboGrids(tg string, y func(c08.Case) bool) bool {
+	return c08.DubboGrid(tg, y) && c08.DubboAttachmentGrid(tg, y)
+}
+
 func TestVerifC08Dubbo(t *testing.T) {
 	t.Parallel()
 	// the decoder's behaviour depends on the listener name variable (attachment parsing)
 	c08Run(t, "dubbo", []c08Target{
-		{"dubbo", c08.DubboFrames(), [][]byte{{0xda, 0xbb}}, c08.DubboGrid},
-		{"dubbo/" + dubbo.IngressDubbo, c08.DubboFrames(), nil, c08.DubboGrid},
-		{"dubbo/" + dubbo.EgressDubbo, c08.DubboFrames(), nil, c08.DubboGrid},
+		{"dubbo", c08.DubboFrames(), [][]byte{{0xda, 0xbb}}, c08DubboGrids},
+		{"dubbo/" + dubbo.IngressDubbo, c08.DubboFrames(), nil, c08DubboGrids},
+		{"dubbo/" + dubbo.EgressDubbo, c08.DubboFrames(), nil, c08DubboGrids},
 	})
 }
 
@@ -257,7 +261,7 @@ func TestVerifC08DubboThrift(t *testing.T) {
 func TestVerifC08Tars(t *testing.T) {
 	t.Parallel()
 	// tars has no magic; the matcher keys on byte 4 == 0x10 (iVersion head); 0x00 0x00 is the top of every sane length prefix
-	c08Run(t, "tars", []c08Target{{"tars", c08.TarsFrames(), [][]byte{{0x00, 0x00}, {0x10}}, nil}})
+	c08Run(t, "tars", []c08Target{{"tars", c08.TarsFrames(), [][]byte{{0x00, 0x00}, {0x10}}, c08.TarsMapGrid}})
 }
 
 // Vacuity guard: every frame of the alphabets decodes to a frame consuming exactly its bytes.
